@@ -111,8 +111,10 @@ def choi_from_unitary(unitary: np.ndarray) -> np.ndarray:
         np.ndarray : The calculated choi matrix.
 
     """
-    unitary = np.array(unitary)
-    return np.outer(unitary.flatten(), np.conj(unitary.flatten()))
+    # Vectorise column by column, this gives the input (x) output ordering
+    # that is used by the process tomography routines
+    vec = np.array(unitary).T.flatten()
+    return np.outer(vec, np.conj(vec))
 
 
 def _vec(mat: np.ndarray) -> np.ndarray:
